@@ -192,6 +192,32 @@ func TestC06(t *testing.T) {
 		if err != nil || hx.Diff(obs, after) != "" {
 			t.Fatalf("%s changed its receiver: %v %s\n%s", mode, err, hx.Diff(obs, after), desc())
 		}
+		// a receiver that lost all its columns (Drop of every column of a frame that may have been filtered or sliced
+		// before): whatever rows such a frame is taken to have, a constant Apply and WithRowNums on it give a frame that
+		// can be observed, all of whose columns have Len() cells
+		if names := recv.ColumnNames(); len(names) > 0 && rapid.IntRange(0, 3).Draw(t, "columnless") == 0 {
+			if perr := hx.Safely(func() {
+				cl := recv.Drop(names...)
+				if cl.Err != nil {
+					return
+				}
+				for _, r := range []qframe.QFrame{cl.Apply(qframe.Instruction{Fn: 7, DstCol: "zz-c"}), cl.WithRowNums("zz-n"),
+					cl.Apply(qframe.Instruction{Fn: hx.ZeroArgInt, DstCol: "zz-f"})} {
+					if r.Err != nil {
+						continue
+					}
+					o, err := hx.Observe(r)
+					if err != nil {
+						panic(fmt.Sprintf("the result cannot be observed: %v", err))
+					}
+					if o.N() != r.Len() {
+						panic(fmt.Sprintf("the result has Len()=%d but %d cells per column", r.Len(), o.N()))
+					}
+				}
+			}); perr != nil {
+				t.Fatalf("Apply/WithRowNums on the receiver after Drop(%q): %v\n%s", names, perr, desc())
+			}
+		}
 		// "changes nothing else": further columns added to the result and to a sibling forked from the same
 		// result must not show up in each other (new columns are appended to a column slice that may have
 		// spare capacity)
